@@ -36,6 +36,10 @@ def items(tier):
                 if q and n == 3 and (sort != "default" or prob == "gen-sym"):
                     continue
                 out.append(dict(kind="dense", id="dense-n%d-%s-%s" % (n, prob, sort), n=n, prob=prob, sort=sort))
+    # complex Hermitian pencils (eigh with complex vectors: the bilinear q^T B q is a general complex number)
+    for gen in (False, True):
+        out.append(dict(kind="dense", id="dense-n2-%s-herm-default" % ("gen" if gen else "std"), n=2,
+                        prob=("gen" if gen else "std") + "-herm", sort="default"))
     for sig in ("zero", "sym"):
         for gen in (False, True):
             for n in ((2,) if q else (2, 3)):
@@ -67,6 +71,27 @@ def _spd(V, n):
     return wrap(np.asarray(B, dtype=object)) if V.symbolic else B
 
 
+def _herm(V, name, n):
+    """Complex Hermitian matrix: real diagonal, free complex upper triangle, conjugated lower triangle."""
+    A = np.empty((n, n), dtype=object if V.symbolic else complex)
+    for i in range(n):
+        A[i, i] = V.real("%s_%d_%d" % (name, i, i)) + (C(R(q=0), R(q=0)) if V.symbolic else 0j)
+        for j in range(i + 1, n):
+            z = V.cplx("%s_%d_%d" % (name, i, j))
+            V.assume(z.imag != 0, "strictly complex off-diagonal (the real symmetric case has its own items)")
+            A[i, j] = z
+            A[j, i] = z.conjugate()
+    return wrap(A) if V.symbolic else A
+
+
+def _pdiag(V, n):
+    """Positive diagonal B (keeps the complex Hermitian generalised item within solver reach)."""
+    B = np.zeros((n, n), dtype=object if V.symbolic else float)
+    for i in range(n):
+        B[i, i] = V.real("Bd_%d" % i, positive=True, default=1.0)
+    return wrap(B) if V.symbolic else B
+
+
 def _sorting(sort):
     if sort == "default":
         return None
@@ -78,10 +103,11 @@ def _sorting(sort):
 def sc_dense(V, P, cfg):
     import pymoto as pym
     n, prob, sort = cfg["n"], cfg["prob"], cfg["sort"]
+    herm = prob.endswith("herm")
     symm = prob.endswith("sym")
     gen = prob.startswith("gen")
-    A = _sym(V, "A", n, symm)
-    B = _spd(V, n) if gen else None
+    A = _herm(V, "A", n) if herm else _sym(V, "A", n, symm)
+    B = (_pdiag(V, n) if herm else _spd(V, n)) if gen else None
     sigs = [pym.Signal("A", A)] + ([pym.Signal("B", B)] if gen else [])
     kw = {}
     sf = _sorting(sort)
@@ -91,7 +117,7 @@ def sc_dense(V, P, cfg):
     if V.symbolic:
         from symx import factor
         W = V.reals("W", n)
-        Q = V.reals("Q", (n, n))
+        Q = V.cplxs("Q", (n, n)) if herm else V.reals("Q", (n, n))
         Bm = np.asarray(B) if gen else np.eye(n, dtype=int).astype(object)
         lhs = np.asarray(A) @ np.asarray(Q)
         rhs = Bm @ np.asarray(Q) @ np.diag(np.asarray(W))
@@ -100,8 +126,11 @@ def sc_dense(V, P, cfg):
                 V.assume(lhs[i, j] == rhs[i, j], "oracle contract A Q = B Q diag(W)")
         for j in range(n):
             qj = np.asarray(Q)[:, j]
-            V.assume((qj @ Bm @ qj) > 0, "q^T B q > 0 for oracle eigenvectors")
-        if symm:
+            if herm:
+                V.assume((qj @ Bm @ qj) != 0, "q^T B q != 0 for oracle eigenvectors (complex: may vanish otherwise)")
+            else:
+                V.assume((qj @ Bm @ qj) > 0, "q^T B q > 0 for oracle eigenvectors")
+        if symm or herm:
             for j in range(n - 1):
                 V.assume(W[j] <= W[j + 1], "eigh: ascending eigenvalues")
         factor.register("eig", (W, Q))
@@ -176,6 +205,11 @@ def sc_sparse(V, P, cfg):
             call = calls[-1]
             P.holds("k==nmodes", call["k"] == nm, kind="arpack-arguments")
             P.holds("eigsh-for-hermitian", call["kind"] == "eigsh", kind="arpack-arguments")
+            # shift-invert: 'closest to sigma' are the largest-magnitude eigenvalues of the transformed operator
+            P.holds("which=='LM' (closest to the shift)", call.get("which", "LM") == "LM", kind="arpack-arguments")
+            P.holds("mode=='normal'", call.get("mode", "normal") == "normal", kind="arpack-arguments")
+            P.holds("no-further-arpack-options", not [k_ for k_ in call.get("extra", {}) if k_ not in ("v0", "ncv", "maxiter", "tol")],
+                    kind="arpack-arguments")
             if cfg["sigma"] == "sym":
                 P.eq("sigma-passed", call["sigma"], sigma, kind="arpack-arguments")
             else:
@@ -226,8 +260,8 @@ def replay(cfg, label, env, case):
     try:
         if cfg["kind"] == "dense":
             symm, gen = cfg["prob"].endswith("sym"), cfg["prob"].startswith("gen")
-            A = _sym(V, "A", n, symm)
-            B = _spd(V, n) if gen else None
+            A = _herm(V, "A", n) if cfg["prob"].endswith("herm") else _sym(V, "A", n, symm)
+            B = (_pdiag(V, n) if cfg["prob"].endswith("herm") else _spd(V, n)) if gen else None
             sigs = [pym.Signal("A", A)] + ([pym.Signal("B", B)] if gen else [])
             kw = {}
             if _sorting(cfg["sort"]) is not None:
@@ -252,6 +286,77 @@ def replay(cfg, label, env, case):
                     bad.append("order[%d]" % i)
             hit = [b for b in bad if label.startswith(b.split("[")[0])]
             return dict(reproduced=bool(hit), detail=dict(failed=bad, W=np.asarray(W).tolist()))
+        return _replay_sparse(cfg, label, V)
     except Exception as e:
         return dict(reproduced=label.startswith("exception:"), detail="%s: %s" % (type(e).__name__, str(e)[:200]))
-    return dict(reproduced=None, detail="sparse items: arguments handed to the ARPACK stub are not observable on the real library")
+
+
+def _replay_sparse(cfg, label, V):
+    """Real ARPACK cannot run the n=2/3 pencil of the encoding (k < n - 1 is required), and the clause families of the
+    sparse items do not depend on the matrix entries: the replay runs the real EigenSolve on a fixed 8x8 symmetric
+    pencil (same nmodes / sigma / generalised flag), spies on the scipy.sparse.linalg call and evaluates the clauses on
+    what real ARPACK returned (compared with the dense spectrum)."""
+    import pymoto as pym
+    import scipy.sparse as sps
+    import scipy.sparse.linalg as spsla
+    import scipy.linalg as spla
+    N, nm, gen = 8, cfg["nmodes"], cfg["gen"]
+    d = np.array([4.0, 7.5, 2.5, 9.0, 5.5, 12.0, 3.25, 8.0])
+    Ad = np.diag(d) + np.diag(np.full(N - 1, 1.0), 1) + np.diag(np.full(N - 1, 1.0), -1)
+    Bd = np.diag(np.linspace(1.0, 2.0, N)) if gen else np.eye(N)
+    sigma = float(V.real("sigma", nonzero=True, default=0.5)) if cfg["sigma"] == "sym" else 0.0
+    # indefinite w.r.t. the shift: the eigenvalue closest to sigma lies just below it
+    W0 = np.sort(spla.eigh(Ad, Bd, eigvals_only=True))
+    Ad = Ad - (W0[3] + 0.1 * (W0[4] - W0[3]) - sigma) * Bd
+    sigs = [pym.Signal("A", sps.csc_matrix(Ad))] + ([pym.Signal("B", sps.csc_matrix(Bd))] if gen else [])
+    m = pym.EigenSolve(sigs, nmodes=nm, sigma=sigma, hermitian=True)
+    calls = []
+    real = dict(eigsh=spsla.eigsh, eigs=spsla.eigs)
+
+    def spy(kind):
+        def f(*a, **kw):
+            calls.append(dict(kind=kind, kw=dict(kw)))
+            return real[kind](*a, **kw)
+        return f
+    spsla.eigsh, spsla.eigs = spy("eigsh"), spy("eigs")
+    try:
+        m.response()
+    finally:
+        spsla.eigsh, spsla.eigs = real["eigsh"], real["eigs"]
+    W, Q = np.asarray(m.sig_out[0].state), np.asarray(m.sig_out[1].state)
+    bad = []
+    if len(calls) != 1:
+        bad.append("one-arpack-call")
+    for cl in calls[-1:]:
+        kw = cl["kw"]
+        if cl["kind"] != "eigsh":
+            bad.append("eigsh-for-hermitian")
+        if kw.get("k") != nm:
+            bad.append("k==nmodes")
+        if kw.get("which", "LM") != "LM":
+            bad.append("which=='LM'")
+        if kw.get("mode", "normal") != "normal":
+            bad.append("mode=='normal'")
+        if kw.get("sigma") != sigma:
+            bad.append("sigma-passed")
+        if [k_ for k_ in kw if k_ not in ("k", "M", "OPinv", "sigma", "mode", "which", "v0", "ncv", "maxiter", "tol")]:
+            bad.append("no-further-arpack-options")
+    Wall = np.sort(spla.eigh(Ad, Bd, eigvals_only=True))
+    closest = np.sort(Wall[np.argsort(abs(Wall - sigma))[:nm]])
+    if W.shape != (nm,) or Q.shape != (N, nm):
+        bad.append("nmodes-returned")
+    elif not np.allclose(np.sort(np.real(W)), closest, rtol=1e-7, atol=1e-9):
+        bad += ["which=='LM'", "OPinv", "sigma-passed", "A-passed", "M-passed", "M-is-None"]   # not the nm values closest to the shift
+    for i in range(min(nm, Q.shape[1] if Q.ndim == 2 else 0)):
+        if abs(Q[:, i] @ Bd @ Q[:, i] - 1) > 1e-7:
+            bad.append("norm[%d]" % i)
+        if np.real(np.average(Q[:, i])) < -1e-12:
+            bad.append("sign[%d]" % i)
+        if np.linalg.norm(Ad @ Q[:, i] - W[i] * (Bd @ Q[:, i])) > 1e-6 * np.linalg.norm(Ad):
+            bad.append("pair[%d]" % i)
+    for i in range(len(W) - 1):
+        if not np.real(W[i]) <= np.real(W[i + 1]) + 1e-12:
+            bad.append("order[%d]" % i)
+    hit = [b for b in bad if label.startswith(b)]
+    return dict(reproduced=bool(hit), detail=dict(failed=bad, W=np.real(W).tolist(), closest=closest.tolist(),
+                                                  call=[dict(kind=c_["kind"], kw={k_: repr(v_)[:40] for k_, v_ in c_["kw"].items()}) for c_ in calls]))
